@@ -57,6 +57,9 @@ class ObjMap:
     def update(self, cloud):
         self.r.update(cloud)
 
+    def reset(self):
+        self.r.reset()
+
     def prime_prior(self, xp):
         return np.asarray(self.r.x_prime_log_prior(xp.copy()), dtype=float) + np.zeros(xp.size)
 
@@ -94,6 +97,9 @@ class PropMap:
 
     def update(self, cloud):
         self.prop.check_state(cloud)
+
+    def reset(self):
+        self.prop._reparameterisation.reset()
 
     def prime_prior(self, xp):
         return np.asarray(self.prop.x_prime_log_prior(xp.copy()), dtype=float) + np.zeros(xp.size)
